@@ -1,5 +1,5 @@
 (* Property C10 — sample result coding. Statements only; proofs live in Proofs/ and Gen/. *)
-From Coq Require Import List NArith ZArith Bool.
+From Coq Require Import List NArith ZArith Bool Permutation.
 From PV Require Import Lib.Table Lib.AmmoBytes Lib.AmmoLines Model.AmmoCommon Model.AmmoUri Model.AmmoUripost Model.AmmoRaw Model.AmmoJson Model.ShootAmmo Proofs.ShootAmmoProofs Model.Sample Model.GrpcStatus Model.Shoot Model.ShootEvents Proofs.SampleProofs Proofs.ShootProofs Proofs.ShootEventsProofs Gen.GrpcStatusGen Gen.GrpcStatus_bridge Gen.ConstGen Gen.Const_bridge.
 Import ListNotations.
 Local Open Scope N_scope.
@@ -298,6 +298,19 @@ Proof.
   split; [exact raw_entries_tags|exact read_array_tags].
 Qed.
 Print Assumptions C10_ammo_file_tags_ids.
+
+(* Any number of concurrently shooting instances: whatever order the scheduler makes the
+   instances acquire the delivered ammo in (any permutation es' of the deliveries es), the
+   samples are - up to order and ids - those of the sequential run: tag and codes of a sample
+   depend on its own ammo only; the ids stay pairwise distinct (counter values). *)
+Theorem C10_ammo_concurrent_instances :
+  forall (E : Type) cfg (tag_of path_of : E -> bytes) (x : E -> exchange) es es' i id i' id',
+  Permutation es es' ->
+  Permutation (map sm_fields (ammo_spec cfg tag_of path_of (fun _ => x) i id es))
+              (map sm_fields (ammo_spec cfg tag_of path_of (fun _ => x) i' id' es')) /\
+  NoDup (map sm_id (ammo_spec cfg tag_of path_of (fun _ => x) i' id' es')).
+Proof. intros. split; [apply ammo_spec_any_order; assumption|apply ammo_spec_ids_nodup]. Qed.
+Print Assumptions C10_ammo_concurrent_instances.
 
 (* non-vacuity: an uripost file whose request has a three-word tag; auto-tag appended *)
 Example C10_ammo_file_example :
